@@ -83,8 +83,20 @@ impl CleanMarkerStore {
                 format!("clean marker serialize failed: {:?}", e),
             )
         })?;
+        #[cfg(walrus_verif)]
+        if crate::wal::verif::io_event("clean_write", &tmp_path, 0, bytes.len() as u64) == crate::wal::verif::IoDecision::Fail {
+            return Err(crate::wal::verif::injected_error());
+        }
         fs::write(&tmp_path, &bytes)?;
+        #[cfg(walrus_verif)]
+        if crate::wal::verif::io_event("clean_sync", &tmp_path, 0, 0) == crate::wal::verif::IoDecision::Fail {
+            return Err(crate::wal::verif::injected_error());
+        }
         fs::File::open(&tmp_path)?.sync_all()?;
+        #[cfg(walrus_verif)]
+        if crate::wal::verif::io_event("clean_rename", path, 0, 0) == crate::wal::verif::IoDecision::Fail {
+            return Err(crate::wal::verif::injected_error());
+        }
         fs::rename(&tmp_path, path)?;
         Ok(())
     }
